@@ -1,7 +1,7 @@
 SPECIFICATION Spec
 CONSTANTS
   MaxBlocks = 2
-  MaxReqs = 3
+  MaxReqs = 2
   Templates = {"o23", "ref", "dq", "jmp"}
   PatchKinds = {"plain2", "ref", "bytes", "datasec"}
   FnLayouts = {"none", "one"}
